@@ -16,8 +16,8 @@ EXTENDS GwfProject, Json, IOUtils
 
 Batch == JsonDeserialize(IOEnv.TRACE_FILE)
 
-VARIABLES tid, l, bad, dr, hits
-tvars == <<vars, tid, l, bad, dr, hits>>
+VARIABLES tid, l, bad, dr, hits, halt, first
+tvars == <<vars, tid, l, bad, dr, hits, halt, first>>
 
 Events == Batch[tid].events
 Ev     == Events[l]
@@ -32,16 +32,23 @@ After(e, tr, hs, f) == <<EqT(e.after.trk, tr), EqT(e.after.hsh, hs), EqF(e.after
 (* a clause is <<name, holds>> or <<name, holds, exercised>>: `exercised` says that the   *)
 (* clause was not vacuous at this step; the names of exercised clauses are collected in   *)
 (* hits so that a run in which a property was never really tested is recognised.          *)
-Judge(cl) == /\ bad' = {c[1] : c \in {x \in cl \cup {<<"C09_no_duplicate_live", C09_NoDuplicateLive'>>,
-                                                       <<"C07_no_early_start", C07_NoEarlyStart'>>,
-                                                       <<"C18_hash_never_ahead", C18_HashNeverAhead'>>} : ~x[2]}}
+(* Failed clauses are accumulated over the whole trace (the state keeps following the specification  *)
+(* fed with what was observed, so later steps show the consequences of an earlier deviation); a     *)
+(* trace ends early only when an event is not enabled in the specification at all (Stuck).          *)
+NewBad(cl) == {c[1] : c \in {x \in cl \cup {<<"C09_no_duplicate_live", C09_NoDuplicateLive'>>,
+                                               <<"C07_no_early_start", C07_NoEarlyStart'>>,
+                                               <<"C18_hash_never_ahead", C18_HashNeverAhead'>>} : ~x[2]}}
+Judge(cl) == /\ bad' = bad \cup NewBad(cl)
+             /\ first' = IF first = 0 /\ NewBad(cl) # {} THEN l ELSE first
              /\ hits' = hits \cup {c[1] : c \in {x \in cl : Len(x) = 2 \/ x[3]}}
+             /\ halt' = FALSE
              /\ l' = l + 1
-Stuck(name) == /\ bad' = {name} /\ l' = l + 1 /\ UNCHANGED <<vars, dr, hits>>
+Stuck(name) == /\ bad' = bad \cup {name} /\ halt' = TRUE /\ first' = IF first = 0 THEN l ELSE first
+               /\ l' = l + 1 /\ UNCHANGED <<vars, dr, hits>>
 
 TraceInit ==
   /\ tid \in 1..Len(Batch)
-  /\ l = 2 /\ bad = {} /\ dr = FALSE /\ hits = {}
+  /\ l = 2 /\ bad = {} /\ dr = FALSE /\ hits = {} /\ halt = FALSE /\ first = 0
   /\ LET e == Batch[tid].events[1] IN
      /\ w = [T |-> S(e.w.T), in |-> [t \in S(e.w.T) |-> S(e.w.in[t])],
              out |-> [t \in S(e.w.T) |-> S(e.w.out[t])], prot |-> [t \in S(e.w.T) |-> S(e.w.prot[t])]]
@@ -74,6 +81,10 @@ TStatus ==
             Drained /\ \E j \in JobIds : jobs[j].st = "OK">>,
       <<"C05_status_pure", Ev.pure /\ After(Ev, trk, hsh, fs) = <<TRUE, TRUE, TRUE>> >>,
       <<"C18_unchanged_otherwise", EqT(Ev.after.hsh, hsh)>>,
+      (* with hashing on, a target without a record, or whose spec differs from the record, is stale *)
+      <<"C18_stale_by_hash", Ev.exit = 0 /\ \A t \in Shown(S(Ev.sel)) \cap DOMAIN Ev.table :
+                                (useHash /\ hsh[t] # specv[t] /\ Snap[t] \in {"U", "C"}) => Ev.table[t] = "shouldrun",
+                            useHash /\ \E t \in Shown(S(Ev.sel)) : hsh[t] # specv[t] /\ Snap[t] \in {"U", "C"}>>,
       <<"C08_no_sacct_when_disabled", Backend = "slurm_noacct" => ~Ev.sacct_called>> })
 
 TDryRun ==
@@ -94,7 +105,7 @@ TRunSubmit ==
   /\ IF gp.pc # "run" \/ Ev.t \notin gp.plan THEN Stuck("C02_set")
      ELSE IF Ev.t \notin gp.todo THEN Stuck("C02_once")
      ELSE IF RunPrereq(Ev.t) \cap gp.todo # {} THEN Stuck("C02_order")
-     ELSE /\ RunSubmit(Ev.t) /\ dr' = dr
+     ELSE /\ RunSubmitH(Ev.t, {h \in S(Ev.hold) : h \in JobIds}) /\ dr' = dr
           /\ Judge({
               <<"C02_prereq", S(Ev.hold) = HoldFor(Ev.t) /\ Len(Ev.hold) = Cardinality(S(Ev.hold))>>,
               <<"C07_hold", S(Ev.hold) = HoldFor(Ev.t) /\ Len(Ev.hold) = Cardinality(S(Ev.hold))
@@ -240,20 +251,24 @@ TSched ==
                                       THEN JobInherit(Ev.j) /\ jobs'[Ev.j].st = Ev.st /\ Judge({})
                                       ELSE Stuck("C07_never_after_failure")
 
+(* a job ended although neither the scheduler model nor a cancel request of gwf ended it *)
+TVanished == Ev.act = "JobVanished" /\ Stuck(IF Ev.st = "CANCELLED" THEN "C17_no_other_target" ELSE "C13_unexplained_end")
+
 TPoolRestart == Ev.act = "PoolRestart" /\ PoolRestart /\ dr' = FALSE /\ Judge({})
 
 TraceNext ==
-  /\ bad = {} /\ l <= Len(Events)
+  /\ ~halt /\ l <= Len(Events)
   /\ tid' = tid
   /\ \/ TStatus \/ TDryRun \/ TRunBegin \/ TRunSubmit \/ TRunEnd \/ TRunReject \/ TCrash \/ TCrashWrite \/ TQueryFail
-     \/ TTouch \/ TClean \/ TCancel \/ TEnv \/ TSched \/ TPoolRestart
+     \/ TTouch \/ TClean \/ TCancel \/ TEnv \/ TSched \/ TPoolRestart \/ TVanished
 
 TraceSpec == TraceInit /\ [][TraceNext]_tvars
 
 (* printed once per trace: at its first failing step, or when it has been consumed completely *)
 Verdict ==
-  \/ bad = {} /\ l <= Len(Events)
-  \/ PrintT(ToJson([id |-> Batch[tid].id, failed |-> bad, hits |-> hits, step |-> l - 1, len |-> Len(Events),
-                    act |-> IF l - 1 >= 1 /\ l - 1 <= Len(Events) THEN Events[l - 1].act ELSE "end"]))
+  \/ ~halt /\ l <= Len(Events)
+  \/ PrintT(ToJson([id |-> Batch[tid].id, failed |-> bad, hits |-> hits, step |-> IF first = 0 THEN l - 1 ELSE first, len |-> Len(Events),
+                    act |-> IF first >= 1 /\ first <= Len(Events) THEN Events[first].act
+                            ELSE IF l - 1 >= 1 /\ l - 1 <= Len(Events) THEN Events[l - 1].act ELSE "end"]))
 
 =============================================================================
